@@ -96,6 +96,8 @@ def build_jobs(tier, rep):
     for k, d in enumerate(gen.sample(short, 15000 if q else 100000, C.SEED + 2)):
         enc = d.replace("\n", "\r\n") if k % 2 else d.replace("\n", "\r")
         jobs.append((cfgs[k % 3], enc))
+    for k, d in enumerate(gen.sample(gen.l3_docs(), 50000 if q else 637602, C.SEED + 5, keep_short=800)):
+        jobs.append((cfgs[k % len(cfgs)], d + ("\n" if k % 2 else "")))
     tw = gen.twins(gen.sample(l1, 25000 if q else 300000, C.SEED + 4, keep_short=2000), C.SEED, per_doc=2)
     for k, d in enumerate(tw):
         jobs.append((cfgs[k % len(cfgs)], d))
